@@ -297,3 +297,107 @@ Proof.
   - cbn [append]. change (b_of "[") with 91%N. cbn [N.eqb Pos.eqb negb].
     rewrite Hy. rewrite (Hc94 eq_refl), Hc93. rewrite <- Hy. rewrite Hbody. cbn [app]. rewrite Hpi. eexists. reflexivity.
 Qed.
+
+(* ------------------------------------------------------------------ *)
+(* 4. literal runs: characters, escapes, and the braces / octal digits that change meaning with their neighbours *)
+
+Definition ltok_ok (t : tok) (next : N) : bool :=
+  match t with
+  | TChar (String a EmptyString) =>
+      let b := b_of a in
+      (b <? 128)%N && negb (b =? 92)%N && negb (is_operator b) && (negb (b =? 123)%N || negb (is_dig next))
+  | TEsc o (String bs (String a EmptyString)) =>
+      let b := b_of a in
+      (b_of bs =? 92)%N && (b <? 128)%N && negb ((b =? 112) || (b =? 80) || (b =? 120) || (b =? 81))%N &&
+      (if is_oct b then op_eqb o OpEscapeOctal && negb (is_oct next)
+       else op_eqb o (if re_meta b then OpEscapeMeta else OpEscapeChar))
+  | _ => false
+  end.
+
+Fixpoint ltoks_ok (ts : list tok) : bool :=
+  match ts with
+  | [] => true
+  | t :: r => ltok_ok t (first_b (toks_text r)) && ltoks_ok r
+  end.
+
+Lemma lex_repeat_no_digit s : is_dig (first_b s) = false -> lex_repeat s = None.
+Proof.
+  intros H. unfold lex_repeat. destruct s as [|a r]; [reflexivity|]. cbn [first_b] in H. cbn [span_digits]. rewrite H. reflexivity.
+Qed.
+
+Theorem lex_lits_roundtrip ts : forall fuel,
+  ltoks_ok ts = true -> (String.length (toks_text ts) < fuel)%nat -> lex_lits fuel (toks_text ts) = Some ts.
+Proof.
+  induction ts as [|t r IH]; intros fuel Hok Hf.
+  - destruct fuel as [|f]; [inversion Hf|]. reflexivity.
+  - cbn [ltoks_ok] in Hok. apply andb_true_iff in Hok as [Ht Hr].
+    destruct fuel as [|f]; [inversion Hf|].
+    cbn [toks_text] in Hf |- *. rewrite slen_app in Hf.
+    set (tail := toks_text r) in *.
+    assert (Htail : (0 < String.length (tok_text t))%nat -> lex_lits f tail = Some r) by (intros H2; apply IH; [exact Hr|lia]).
+    destruct t as [v| |v|o v|v]; try discriminate Ht.
+    + destruct v as [|a [|? ?]]; try discriminate Ht. cbn [ltok_ok] in Ht.
+      apply andb_true_iff in Ht as [Ht Hbr]. apply andb_true_iff in Ht as [Ht Hop]. apply andb_true_iff in Ht as [H128 H92].
+      apply negb_true_iff in H92. apply negb_true_iff in Hop.
+      assert (G128 : (128 <=? b_of a)%N = false) by (apply N.leb_gt; apply N.ltb_lt; exact H128).
+      cbn [tok_text append lex_lits]. rewrite G128, H92. specialize (Htail ltac:(simpl; lia)).
+      destruct (b_of a =? 123)%N eqn:E123.
+      * cbn [negb orb] in Hbr. apply negb_true_iff in Hbr. rewrite (lex_repeat_no_digit tail Hbr), Htail. reflexivity.
+      * rewrite Hop, Htail. reflexivity.
+    + destruct v as [|bs [|a [|? ?]]]; try discriminate Ht. cbn [ltok_ok] in Ht.
+      apply andb_true_iff in Ht as [Ht Hop]. apply andb_true_iff in Ht as [Ht Hpx].
+      apply andb_true_iff in Ht as [Ebs H128]. apply N.eqb_eq in Ebs. apply negb_true_iff in Hpx.
+      assert (G128 : (128 <=? b_of a)%N = false) by (apply N.leb_gt; apply N.ltb_lt; exact H128).
+      cbn [tok_text append lex_lits]. rewrite Ebs. cbn [N.leb N.eqb Pos.eqb N.compare Pos.compare Pos.compare_cont].
+      cbn [lex_escape]. rewrite G128, Hpx. specialize (Htail ltac:(simpl; lia)).
+      destruct (is_oct (b_of a)) eqn:Eoct.
+      * apply andb_true_iff in Hop as [Hop Hnx]. apply op_eqb_eq' in Hop. apply negb_true_iff in Hnx. subst o.
+        destruct tail as [|a2 r2] eqn:Etl; [rewrite Htail; reflexivity|]. cbn [first_b] in Hnx. rewrite Hnx, Htail. reflexivity.
+      * apply op_eqb_eq' in Hop. subst o. rewrite Htail. reflexivity.
+Qed.
+
+(* ------------------------------------------------------------------ *)
+(* 5. the five open re-lexing classes: each is a failure of exactly one guard, and the text really reads back
+      as something else *)
+
+(* [a-b-x] => [ab-x]: after enumerating a-b the item `b` (can start a range) is followed by `-` *)
+Definition rl_range_items := [X OpChar "a" []; X OpChar "b" []; X OpChar "-" []; X OpChar "x" []].
+Lemma relex_range_enumeration_refuted :
+  items_ok None rl_range_items = false /\
+  items_toks rl_range_items = Some [TChar "a"; TChar "b"; TMinus; TChar "x"] /\
+  parse_items None [TChar "a"; TChar "b"; TMinus; TChar "x"] <> rl_range_items /\
+  option_map fst (parse_class "[ab-x]") = Some t_rng2_after.
+Proof. repeat split; try (vm_compute; reflexivity). vm_compute. discriminate. Qed.
+
+(* [[\:alpha:]] => [[:alpha:]]: the bare `[` is now followed by `:` *)
+Definition rl_posix_toks := [TChar "["; TChar ":"; TChar "a"; TChar "l"; TChar "p"; TChar "h"; TChar "a"; TChar ":"].
+Lemma relex_escape_removal_posix_refuted :
+  ctoks_ok rl_posix_toks = false /\
+  lex_body 20 (toks_text rl_posix_toks ++ "]" ++ "]") <> Some (rl_posix_toks, "]") /\
+  option_map fst (parse_class "[[:alpha:]]") = Some t_esc_posix_after.
+Proof. repeat split; try (vm_compute; reflexivity). vm_compute. discriminate. Qed.
+
+(* a{1\,2} => a{1,2}: the bare `{` is now followed by digits , digits } *)
+Definition rl_repeat_toks := [TChar "a"; TChar "{"; TChar "1"; TChar ","; TChar "2"; TChar "}"].
+Lemma relex_escape_removal_repeat_refuted :
+  ltoks_ok rl_repeat_toks = false /\ lex_literals (toks_text rl_repeat_toks) = Some [TChar "a"; TRepeat "{1,2}"].
+Proof. split; vm_compute; reflexivity. Qed.
+
+(* a(?:{)2} => a{2}: the unwrapped `{` is now followed by a digit *)
+Definition rl_unwrap_toks := [TChar "a"; TChar "{"; TChar "2"; TChar "}"].
+Lemma relex_unwrap_repeat_refuted :
+  ltoks_ok rl_unwrap_toks = false /\ lex_literals (toks_text rl_unwrap_toks) = Some [TChar "a"; TRepeat "{2}"].
+Proof. split; vm_compute; reflexivity. Qed.
+
+(* \0(?:1) => \01: the one-digit octal escape is now followed by an octal digit *)
+Definition rl_octal_toks := [TEsc OpEscapeOctal "\0"; TChar "1"].
+Lemma relex_unwrap_octal_refuted :
+  ltoks_ok rl_octal_toks = false /\ lex_literals (toks_text rl_octal_toks) = Some [TEsc OpEscapeOctal "\01"].
+Proof. split; vm_compute; reflexivity. Qed.
+
+(* the guards are satisfiable *)
+Example text_guards_satisfiable :
+  ltoks_ok [TChar "a"; TChar "{"; TChar "x"; TEsc OpEscapeOctal "\0"; TChar "9"; TEsc OpEscapeMeta "\."; TEsc OpEscapeChar "\d"] = true /\
+  ctoks_ok [TChar "a"; TMinus; TChar "c"; TChar "["; TChar "x"; TPosix "[:alpha:]"; TEsc OpEscapeMeta "\]"; TEsc OpEscapeChar "\d"; TMinus] = true /\
+  items_ok None [X OpCharRange "a-c" [X OpChar "a" []; X OpChar "c" []]; X OpChar "-" []; X OpChar "x" []; X OpChar "-" []] = true.
+Proof. repeat split; vm_compute; reflexivity. Qed.
